@@ -3,6 +3,7 @@ package main
 import (
 	"encoding/json"
 	"fmt"
+	"regexp"
 	"strings"
 
 	"github.com/antonmedv/expr"
@@ -27,9 +28,21 @@ type C02Scenario struct {
 	Poison   []PoisonFault `json:"poison,omitempty"`
 	Runs     int           `json:"runs"`
 	Layout   Layout        `json:"layout"`
-	Tree     *N            `json:"tree"`
+	Tree     *N            `json:"tree,omitempty"`
 	Env      *EnvData      `json:"env"`
-	Source   string        `json:"source_text,omitempty"`
+	// Raw: a typed-operand probe - source text outside the reference fragment
+	// (operands of every numeric kind, floats, strings, nil, dynamic values next
+	// to a rewrite candidate). Only the optimised-versus-unoptimised oracles
+	// apply to it; no reference model is involved.
+	Raw    string `json:"raw,omitempty"`
+	Source string `json:"source_text,omitempty"`
+}
+
+func (sc *C02Scenario) src() string {
+	if sc.Tree == nil {
+		return sc.Raw
+	}
+	return Print(sc.Tree, sc.Layout).Src
 }
 
 func (sc *C02Scenario) clone() *C02Scenario {
@@ -63,7 +76,7 @@ func (c02Engine) Assumptions() []string {
 	}
 }
 func (c02Engine) Required(tier string) []string {
-	return []string{"hook_calls", "compile_time_calls", "rewrite_fired", "poison_fired_at_compile", "poison_fired_at_run", "runs_compared", "runs_failing_in_both", "stateful_scenarios", "rejections_justified_by_fault"}
+	return []string{"hook_calls", "compile_time_calls", "rewrite_fired", "poison_fired_at_compile", "poison_fired_at_run", "runs_compared", "runs_failing_in_both", "stateful_scenarios", "rejections_justified_by_fault", "typed_operand_probes"}
 }
 func (c02Engine) Decode(raw []byte) (interface{}, error) {
 	var sc C02Scenario
@@ -85,6 +98,12 @@ func (c02Engine) Gen(seed uint64, idx int, tier string) interface{} {
 		if r.Chance(2, 3) {
 			sc.Marks = append(sc.Marks, f)
 		}
+	}
+	if r.Chance(1, 4) {
+		sc.Raw = genTypedProbe(r, sc.Env)
+		sc.Source = sc.Raw
+		sc.Marks = append(sc.Marks, "Ff")
+		return sc
 	}
 	cfg := GenCfg{Budget: r.Range(4, 36), Calls: true, Dyn: r.Chance(1, 2), Failing: r.Chance(2, 3), Strings: true,
 		Closures: r.Chance(3, 4), Maps: r.Chance(1, 2), Objects: r.Chance(1, 2), ShortPred: r.Chance(1, 2), NilSafe: r.Chance(1, 3), SliceCall: true, ConstFns: true}
@@ -118,6 +137,73 @@ func (c02Engine) Gen(seed uint64, idx int, tier string) interface{} {
 	return sc
 }
 
+// genTypedProbe builds a rewrite candidate whose operands have static types
+// outside the int/bool/string fragment. The environment is known, so literals
+// can be placed at the values that matter (the operand's own value, its
+// neighbours, values that wrap to it in a narrower kind).
+func genTypedProbe(r *RNG, d *EnvData) string {
+	e := BuildEnv(nil, d)
+	type opnd struct {
+		src string
+		val int // integer part of the run-time value
+	}
+	ops := []opnd{
+		{"U8", int(e.U8)}, {"U16", int(e.U16)}, {"I8", int(e.I8)}, {"I64", int(e.I64)}, {"F64", int(e.F64)}, {"F32", int(e.F32)},
+		{"A", e.A}, {"S", 0}, {"Any", 0}, {"nil", 0}, {"O.V", e.O.V}, {"C64(2)", 5}, {"len(Xs)", len(e.Xs)}, {"Ff(1)", 2},
+		{"(I8 + 1)", int(e.I8) + 1}, {"(F64 * 2)", int(e.F64 * 2)}, {"On?.V", 0}, {"P", 0},
+	}
+	o := ops[r.Intn(len(ops))]
+	near := func() int {
+		switch r.Intn(6) {
+		case 0:
+			return o.val
+		case 1:
+			return o.val + 1
+		case 2:
+			return o.val - 1
+		case 3:
+			return o.val + 256
+		case 4:
+			return o.val + 65536
+		default:
+			return r.Range(-3, 9)
+		}
+	}
+	lit := func(i int) string {
+		if i < 0 {
+			return fmt.Sprintf("(-%d)", -i)
+		}
+		return fmt.Sprint(i)
+	}
+	in := r.Pick([]string{"in", "not in"})
+	switch r.Intn(9) {
+	case 0: // membership in a literal range, boundaries at the operand's value
+		a := near()
+		b := a + r.Range(-1, 3)
+		return fmt.Sprintf("%s %s %s..%s", o.src, in, lit(a), lit(b))
+	case 1: // membership in a literal int array
+		return fmt.Sprintf("%s %s [%s, %s, %s]", o.src, in, lit(near()), lit(near()), lit(near()))
+	case 2: // membership in a literal string array
+		return fmt.Sprintf("%s %s [\"a\", %q, \"zz\"]", o.src, in, d.S)
+	case 3: // integer literal arithmetic retyped to a float parameter
+		i, j := r.Range(1, 9), r.Range(1, 9)
+		return fmt.Sprintf("Ff(%d %s %d)", i, r.Pick([]string{"/", "*", "-", "+"}), j)
+	case 4:
+		i, j, k := r.Range(1, 9), r.Range(2, 9), r.Range(1, 5)
+		return fmt.Sprintf("Ff(%d / %d + %d) + %s", i, j, k, r.Pick([]string{"F64", "1", "I8"}))
+	case 5: // constant arithmetic next to an operand of another kind
+		return fmt.Sprintf("%s %s (%d %s %d)", o.src, r.Pick([]string{"+", "-", "*", "==", "<", ">="}), r.Range(1, 9), r.Pick([]string{"+", "-", "*", "/", "%"}), r.Range(1, 9))
+	case 6: // literal range indexed / measured by an operand of another kind
+		return fmt.Sprintf("(%d..%d)[%s]", r.Range(-2, 2), r.Range(3, 9), r.Pick([]string{"U8 % 3", "I8 - I8", "len(Ys)", "K"}))
+	case 7: // mixed literal arrays are not folded; homogeneous ones are
+		return fmt.Sprintf("%s %s [%s, %s]", o.src, in, lit(near()), r.Pick([]string{"1.5", "\"a\"", "nil", "2", "A"}))
+	default: // ConstExpr float function with folded arguments under a comparison
+		return fmt.Sprintf("Ff(%d) %s %s", r.Range(0, 4), r.Pick([]string{"==", "<", ">="}), o.src)
+	}
+}
+
+var literalDivZeroRe = regexp.MustCompile(`[/%]\s*\(?-?0\b`)
+
 // hasConstDivZero: the source contains an integer division or modulo whose
 // operands are constant and whose divisor is zero.
 func hasConstDivZero(root *N) bool {
@@ -145,7 +231,10 @@ type c02Prog struct {
 
 func (c02Engine) Run(sci interface{}, ctx *RunCtx) *Finding {
 	sc := sci.(*C02Scenario)
-	pr := Print(sc.Tree, sc.Layout)
+	pr := &Printed{Src: sc.src()}
+	if sc.Tree == nil {
+		ctx.Count("typed_operand_probes", 1)
+	}
 	ctx.Logf("source %q rep=%s stateful=%v marks=%v poison=%v runs=%d", pr.Src, sc.Rep, sc.Stateful, sc.Marks, sc.Poison, sc.Runs)
 	if sc.Stateful {
 		ctx.Count("stateful_scenarios", 1)
@@ -176,7 +265,21 @@ func (c02Engine) Run(sci interface{}, ctx *RunCtx) *Finding {
 			return &Finding{Class: "C02/compile-panic", Detail: p.label + ": Compile panicked: " + p.co.PanicVal + "\n" + head()}
 		}
 	}
-	divZero := hasConstDivZero(sc.Tree)
+	divZero := false
+	if sc.Tree != nil {
+		divZero = hasConstDivZero(sc.Tree)
+	} else {
+		divZero = literalDivZeroRe.MatchString(sc.Raw)
+	}
+	if off.co.Err != nil && sc.Tree == nil {
+		// a probe the type checker rejects is not a program: nothing to compare
+		// (the optimised compilation must then be rejected as well)
+		ctx.Count("probes_rejected_by_checker", 1)
+		if on.co.Err == nil || plain.co.Err == nil {
+			return &Finding{Class: "C02/optimizer-accepts-rejected-program", Detail: "the unoptimised compiler rejects the source (" + firstLine(off.co.ErrText()) + ") but the optimised one accepts it\n" + head()}
+		}
+		return nil
+	}
 	if off.co.Err != nil {
 		return &Finding{Class: "C02/unoptimized-compile-rejected", Detail: "the unoptimised compiler rejected a well-typed program: " + off.co.ErrText() + "\n" + head()}
 	}
@@ -328,9 +431,11 @@ func (c02Engine) Shrinks(sci interface{}) []interface{} {
 	if len(sc.Poison) > 0 {
 		add(func(c *C02Scenario) { c.Poison = nil })
 	}
-	for _, t := range treeShrinks(sc.Tree) {
-		t := t
-		add(func(c *C02Scenario) { c.Tree = t; c.Source = Print(t, c.Layout).Src })
+	if sc.Tree != nil {
+		for _, t := range treeShrinks(sc.Tree) {
+			t := t
+			add(func(c *C02Scenario) { c.Tree = t; c.Source = Print(t, c.Layout).Src })
+		}
 	}
 	for i := range sc.Marks {
 		i := i
@@ -339,7 +444,9 @@ func (c02Engine) Shrinks(sci interface{}) []interface{} {
 	if sc.Runs > 1 {
 		add(func(c *C02Scenario) { c.Runs = 1 })
 	}
-	add(func(c *C02Scenario) { c.Layout = Layout{}; c.Source = Print(c.Tree, c.Layout).Src })
+	if sc.Tree != nil {
+		add(func(c *C02Scenario) { c.Layout = Layout{}; c.Source = Print(c.Tree, c.Layout).Src })
+	}
 	add(func(c *C02Scenario) { c.Rep = RepStruct })
 	add(func(c *C02Scenario) { c.Stateful = false })
 	for _, e := range envShrinks(sc.Env) {
